@@ -21,3 +21,188 @@ import s2_more as more
 more.register(globals(), {"C05", "C02"}, ["par3_mixed", "map_iter_catch", "map_in_par", "par_in_map"],
               {"par3_mixed": [("_none", "not fa and not fb")], "map_in_par": [("_k%d_ok" % k, "kind == %d and not fo and fi == -1" % k) for k in range(3)],
                "par_in_map": [("_ok", "failing == -1")]})
+
+# n == 4 with MaxConcurrency 2 is the smallest Map in which a batch window that ignores an iteration still running its
+# Catch fallback shows: the next batch of two starts while the fallback is in flight (3 > 2) - quick tier runs only that
+# row (MaxConcurrency 1..3, any failing item), the thorough tier the whole n <= 4 grid above
+more.register(globals(), {"C05", "C02"}, ["map_iter_catch"], {"map_iter_catch": [("_n4", "n == 4 and 1 <= mc <= 3")]})
+globals()["map_iter_catch_n4"]._vf.tiers = ("quick",)
+globals()["map_iter_catch_n4"]._vf.bounds = {"quick": {"N": 4}}
+
+
+# ---------------------------------------------------------------------------
+# One-step kernels (Engine A): the two cooperating sites of the MaxConcurrency batching.  The item array has a
+# SYMBOLIC length and MaxConcurrency is a symbolic integer, both flow into the real handlers - a magic constant at
+# either site (e.g. a cap on the batch size) is a branch the solver takes.
+# ---------------------------------------------------------------------------
+from typing import List
+from vf.api import condition
+from vf import stubs
+from vf.stubs import pick
+from asl_workflow_engine import state_engine as se
+
+ASSUMPTIONS += [
+    "one-step kernels: a real StateEngine with recording dispatchers (stubs.make_engine, EXPRESS so that no history is written); the Map state's input array is a CrossHair symbolic list (length <= @L@, values irrelevant), MaxConcurrency a symbolic int",
+    "oracle for both sites: the batch that starts at `start` is [start, min(start + (MaxConcurrency or length), length))",
+]
+
+
+def _map_asl(mc, end=False):
+    m = {"Type": "Map", "MaxConcurrency": mc, "Iterator": {"StartAt": "I", "States": {"I": {"Type": "Pass", "End": True}}}}
+    if end:
+        m["End"] = True
+    else:
+        m["Next"] = "Z"
+    return {"StartAt": "M", "States": {"M": m, "Z": {"Type": "Succeed"}}}
+
+
+_FANOUT_F = ["StateEngine.notify > asl_state_Map / asl_state_Map_delegate (which iterations a batch launches, Range/Length/Index bookkeeping)", "get_start_index"]
+
+
+_OUT_MC = "MaxConcurrency strictly between 2 and length - 1 (whole-run conditions map_conc / map_iter_catch cover it for n <= 4)"
+
+
+@condition(timeout={"quick": 300, "thorough": 900}, bounds={"quick": {"L": 48}, "thorough": {"L": 96}}, functions=_FANOUT_F, outside=["arrays longer than the bound", _OUT_MC])
+def map_fanout_first_batch_small_mc(items: List[int], mc: int) -> bool:
+    """
+    requires: len(items) <= @L@ and all(x == 0 for x in items) and 0 <= mc <= 2
+    ensures: _
+    """
+    # MaxConcurrency unbounded (0) and tiny batches (1, 2)
+    return _map_fanout_batch(items, mc, 0)
+
+
+@condition(timeout={"quick": 300, "thorough": 900}, bounds={"quick": {"L": 48}, "thorough": {"L": 96}}, functions=_FANOUT_F, outside=["arrays longer than the bound", _OUT_MC])
+def map_fanout_first_batch_large_mc(items: List[int], mc: int) -> bool:
+    """
+    requires: len(items) <= @L@ and all(x == 0 for x in items) and 3 <= mc <= len(items) + 2 and mc >= len(items) - 1
+    ensures: _
+    """
+    # MaxConcurrency around the array length: a last batch of one item, exactly one full batch, more than the array.
+    # The number of launched iterations is a distinct path per value, hence the thinned domain.
+    return _map_fanout_batch(items, mc, 0)
+
+
+@condition(timeout={"quick": 240, "thorough": 900}, bounds={"quick": {"L": 48}, "thorough": {"L": 96}}, functions=_FANOUT_F, outside=["arrays longer than the bound", "re-entry at batch boundaries other than 1, 2 and 41"])
+def map_fanout_next_batch(items: List[int], mc: int, reentry: int) -> bool:
+    """
+    requires: len(items) <= @L@ and all(x == 0 for x in items) and 1 <= mc <= @L@ + 2 and 1 <= reentry < 4
+    ensures: _
+    """
+    return _map_fanout_batch(items, mc, reentry)
+
+
+def _map_fanout_batch(items, mc, reentry):
+    L = len(items)
+    asl = _map_asl(mc)
+    eng, log = stubs.make_engine(asl, "EXPRESS")
+    start = pick([0, 1, 2, 41], reentry)
+    if start > 0 and (mc == 0 or start % mc != 0 or start >= L):
+        return True                 # not a batch boundary of this Map: no such re-entry event exists
+    extra = None
+    if start:
+        extra = {"Branch": [{"ID": "map1", "Range": "%d:%d" % (start, 0)}]}
+    ev = stubs.running_event("M", items, "EXPRESS", extra_state=extra)
+    if start:
+        # the join state the first batches left behind (results 0..start-1 present)
+        bm = se.BranchMetadata(ev["context"], 86400)
+        done = [{"done": 1} if i < start else None for i, _ in enumerate(items)]
+        bm.results["map1"] = {"results": done, "ids": [None for _ in items], "state": [None for _ in items]}
+        eng.branch_metadata[stubs.EX_ARN] = bm
+    eng.notify(ev, "id1")
+    pubs = [l[1] for l in log if l[0] == "publish"]
+    want_end = min(start + (mc if mc > 0 else L), L)
+    if L == 0:
+        return len(pubs) == 1 and pubs[0]["context"]["State"]["Name"] == "Z"
+    if len(pubs) != want_end - start:
+        return False
+    k = start
+    for p in pubs:
+        b = p["context"]["State"]["Branch"][-1]
+        if b["Index"] != k or b["Length"] != L or b["Range"] != str(start) + ":" + str(want_end) or p["context"]["State"]["Name"] != "I":
+            return False
+        k += 1
+    return [l for l in log if l[0] == "ack"] == [("ack", "id1")]
+
+
+@condition(timeout={"quick": 300, "thorough": 900}, bounds={"quick": {"L": 44}, "thorough": {"L": 96}},
+           functions=["StateEngine.notify > asl_state_Pass > handle_terminal_state > asl_state_collect_results (batch window of the join: when the Map state is re-entered, with which Range, when the join completes)", "get_start_index", "acknowledge_event_list"],
+           outside=["arrays longer than the bound", _OUT_MC, "batches other than the first two"])
+def map_join_batch(items: List[int], mc: int, second: bool, missing: bool) -> bool:
+    """
+    requires: 1 <= len(items) <= @L@ and all(x == 0 for x in items) and 0 <= mc <= len(items) + 2 and (mc <= 2 or mc >= len(items) - 1)
+    requires: not second and not missing
+    ensures: _
+    """
+    return _map_join_batch(items, mc, second, missing)
+
+
+def _variant(name, extra):
+    base = map_join_batch
+
+    def f(items: List[int], mc: int, second: bool, missing: bool) -> bool:
+        return _map_join_batch(items, mc, second, missing)
+    f.__name__ = f.__qualname__ = name
+    f.__doc__ = base.__doc__.replace("requires: not second and not missing", "requires: " + extra)
+    f.__module__ = __name__
+    c = base._vf
+    globals()[name] = condition(timeout=c.timeout, bounds=c.bounds, functions=c.functions, outside=c.outside)(f)
+
+
+_variant("map_join_batch_waiting", "not second and missing")
+_variant("map_join_second_batch", "second and not missing")
+_variant("map_join_second_batch_waiting", "second and missing")
+
+
+def _map_join_batch(items, mc, second, missing):
+    # The last iteration of a batch reaches its terminal state while every other iteration of that batch has already
+    # delivered its result (`missing`: one of them has not).  The join must re-enter the Map state for the next batch
+    # exactly when the batch [start, min(start + (mc or L), L)) is complete and more items remain, and must complete the
+    # Map state exactly when all L results are present.
+    L = len(items)
+    second = stubs.cbool(second); missing = stubs.cbool(missing)
+    start = mc if second else 0
+    if second and (mc == 0 or start >= L):
+        return True
+    end = min(start + (mc if mc > 0 else L), L)
+    if missing and end - start < 2:
+        return True
+    asl = _map_asl(mc)
+    eng, log = stubs.make_engine(asl, "EXPRESS")
+    j = end - 1
+    binfo = {"Parent": "M", "ID": "map1", "Input": items, "Index": j, "Length": L, "Range": str(start) + ":" + str(end)}
+    ev = stubs.running_event("I", {"item": "last"}, "EXPRESS", extra_state={"Branch": [binfo]})
+    bm = se.BranchMetadata(ev["context"], 86400)
+    res = []; ids = []
+    for i, _ in enumerate(items):
+        have = i < j and not (missing and i == start)
+        res.append({"done": i} if have else None)
+        ids.append(("held%d" % i) if (have and i >= start) else None)
+    bm.results["map1"] = {"results": res, "ids": list(ids), "state": [None for _ in items]}
+    eng.branch_metadata[stubs.EX_ARN] = bm
+    for x in ["id1"] + [x for x in ids if x]:
+        eng.event_dispatcher.unacknowledged_messages[x] = object()     # deliveries not yet acknowledged
+    eng.notify(ev, "id1")
+    pubs = [l[1] for l in log if l[0] == "publish"]
+    acks = [l[1] for l in log if l[0] == "ack"]
+    if missing:
+        return pubs == [] and acks == []                       # still waiting: the event is held for the join
+    if end < L:
+        if len(pubs) != 1 or acks != []:
+            return False
+        st = pubs[0]["context"]["State"]
+        nxt = min(end + mc, L)
+        return st["Name"] == "M" and len(st["Branch"]) == 1 and st["Branch"][-1].get("ID") == "map1" \
+            and st["Branch"][-1].get("Range") == str(end) + ":" + str(nxt) and stubs.same(pubs[0]["data"], list(items))
+    # the join is complete: successor Z entered with the results in item order, every held event acknowledged
+    if len(pubs) != 1 or pubs[0]["context"]["State"]["Name"] != "Z":
+        return False
+    out = pubs[0]["data"]
+    if not isinstance(out, list) or len(out) != L:
+        return False
+    for i in range(L - 1):
+        if out[i] != {"done": i}:
+            return False
+    if out[L - 1] != {"item": "last"}:
+        return False
+    return sorted(acks) == sorted(["id1"] + [x for x in ids if x])
